@@ -18,6 +18,12 @@ RULE = ("random history (updates, merges with fresh sources, computes, earlier r
 MODELLED = ["device placement after .to()"]
 ASSUMPTIONS = []
 EXTRA_LEAN_MODULES = ()
+TRUSTED_EXTRA = ["harness/translators/states.py (AST + runtime attribute diff) producing lean/TE/Gen/States.lean"]
+
+
+def translate(rep: Report):
+    from ..translators import states
+    states.generate(rep)
 
 
 def one(rep: Report, rng: Rng, spec: Spec, cfg0: dict):
